@@ -19,18 +19,21 @@ def cycGraph : List Flag := [.nonStringNode, .noSourceOrSink, .emptyGraph]
 def weights : List Flag := [.missingWeight, .negativeWeight, .badWeightType]
 def constraints : List Flag :=
   [.constraintNotListOfLists, .constraintEmpty, .constraintEdgeAbsent, .constraintNotTuples, .coverageOutOfRange]
+/-- `subpath_constraints_coverage_length`: in (0, 1]; needs `length_attr`; not together with `coverage < 1` -/
+def coverageLength : List Flag :=
+  [.coverageLengthOutOfRange, .coverageLengthWithoutLengthAttr, .coverageLengthWithCoverage]
 def misc : List Flag := [.badOrigin, .ignoreWrongShape]
 def startsEnds : List Flag := [.unknownStart, .unknownEnd]
 def kFlags : List Flag := [.kNonPositive, .kNotInt]
 
 /-- which violations each class is to reject -/
 def expected : String → List Flag
-  | "kFlowDecomp" => dagGraph ++ weights ++ [.nonConservingFlow] ++ constraints ++ [.coverageLengthOutOfRange] ++ misc ++ kFlags
-  | "MinFlowDecomp" => dagGraph ++ weights ++ [.nonConservingFlow] ++ constraints ++ [.coverageLengthOutOfRange] ++ misc ++ startsEnds
-  | "kLeastAbsErrors" => dagGraph ++ weights ++ constraints ++ [.coverageLengthOutOfRange] ++ misc ++ startsEnds ++ kFlags ++ [.scalingOutOfRange]
-  | "kMinPathError" => dagGraph ++ weights ++ constraints ++ [.coverageLengthOutOfRange] ++ misc ++ startsEnds ++ kFlags ++ [.scalingOutOfRange]
-  | "kPathCover" => dagGraph ++ constraints ++ [.coverageLengthOutOfRange] ++ misc ++ startsEnds ++ kFlags
-  | "MinPathCover" => dagGraph ++ constraints ++ [.coverageLengthOutOfRange] ++ misc ++ startsEnds
+  | "kFlowDecomp" => dagGraph ++ weights ++ [.nonConservingFlow] ++ constraints ++ coverageLength ++ misc ++ kFlags
+  | "MinFlowDecomp" => dagGraph ++ weights ++ [.nonConservingFlow] ++ constraints ++ coverageLength ++ misc ++ startsEnds
+  | "kLeastAbsErrors" => dagGraph ++ weights ++ constraints ++ coverageLength ++ misc ++ startsEnds ++ kFlags ++ [.scalingOutOfRange]
+  | "kMinPathError" => dagGraph ++ weights ++ constraints ++ coverageLength ++ misc ++ startsEnds ++ kFlags ++ [.scalingOutOfRange]
+  | "kPathCover" => dagGraph ++ constraints ++ coverageLength ++ misc ++ startsEnds ++ kFlags
+  | "MinPathCover" => dagGraph ++ constraints ++ coverageLength ++ misc ++ startsEnds
   | "kFlowDecompCycles" => cycGraph ++ weights ++ [.nonConservingFlow] ++ constraints ++ misc ++ startsEnds ++ kFlags
   | "MinFlowDecompCycles" => cycGraph ++ weights ++ [.nonConservingFlow] ++ constraints ++ misc ++ startsEnds
   | "kLeastAbsErrorsCycles" => cycGraph ++ weights ++ constraints ++ misc ++ startsEnds ++ kFlags ++ [.scalingOutOfRange]
@@ -52,7 +55,7 @@ def supportExpected : String → List Flag
   | "stDAG" => [.nonStringNode, .cyclicForDag, .unknownStart, .unknownEnd]
   | "stDiGraph" => [.nonStringNode, .noSourceOrSink, .unknownStart, .unknownEnd]
   | "NodeExpandedDiGraph" => [.nonStringNode, .emptyGraph, .unknownStart, .unknownEnd]
-  | "AbstractPathModelDAG" => [.emptyGraph] ++ constraints ++ [.coverageLengthOutOfRange]
+  | "AbstractPathModelDAG" => [.emptyGraph] ++ constraints ++ coverageLength
   | "AbstractWalkModelDiGraph" => [.emptyGraph] ++ constraints ++ kFlags
   | _ => []
 
@@ -75,6 +78,8 @@ def Flag.name : Flag → String
   | .constraintNotListOfLists => "constraintNotListOfLists" | .constraintEmpty => "constraintEmpty"
   | .constraintEdgeAbsent => "constraintEdgeAbsent" | .constraintNotTuples => "constraintNotTuples"
   | .coverageOutOfRange => "coverageOutOfRange" | .coverageLengthOutOfRange => "coverageLengthOutOfRange"
+  | .coverageLengthWithoutLengthAttr => "coverageLengthWithoutLengthAttr"
+  | .coverageLengthWithCoverage => "coverageLengthWithCoverage"
   | .kNonPositive => "kNonPositive" | .kNotInt => "kNotInt" | .badWeightType => "badWeightType"
   | .badOrigin => "badOrigin" | .unknownStart => "unknownStart" | .unknownEnd => "unknownEnd"
   | .scalingOutOfRange => "scalingOutOfRange" | .ignoreWrongShape => "ignoreWrongShape" | .emptyGraph => "emptyGraph"
